@@ -169,6 +169,7 @@ def _closure_arg_is_index(F, f, du, op):
 def arith(F, res, cg, reach):
     rows = {r["key"]: r["reason"] for r in table("e1_rows")["C14"]}
     rows.update({r["key"]: r["reason"] for r in table("e4_rows")["arith"]})
+    discharge.CURRENT_F = F
     _, n_fns, sites = e1.inventory(F, cg, ROOTS)
     res.count("functions on the quantity path", n_fns)
     res.floor("functions on the quantity path", n_fns, 900)
